@@ -445,6 +445,28 @@ class Gen:
         self.funs["bar"] = (1, lambda a: a * a + 1)
         return self.g_out()
 
+    def g_curried(self):
+        """functions whose programs are evaluated lazily, when a LATER step calls them: a function
+        returning a lambda, a curried definition, a function with a nested function"""
+        SI = self.d.SI
+        nm = self.fresh("f")
+        k = self.rng.range(1, 9)
+        shape = self.rng.below(3)
+        if shape == 0:
+            self.add(Form("fun-returns-lambda", "%s(k: %s): %s -> %s == (x: %s): %s +-> (x * %d + k) rem %d;" % (nm, SI, SI, SI, SI, SI, k, M)))
+        elif shape == 1:
+            self.add(Form("fun-curried", "%s(k: %s)(x: %s): %s == (x * %d + k) rem %d;" % (nm, SI, SI, SI, k, M)))
+        else:
+            inner = self.fresh("t")
+            self.add(Form("fun-nested", "%s(k: %s): %s -> %s == {\n   %s(x: %s): %s == (x * %d + k) rem %d;\n   %s\n}" % (nm, SI, SI, SI, inner, SI, SI, k, M, inner)))
+        outs = self.rng.range(1, 3)
+        for _ in range(outs):
+            a, b = self.rng.range(0, 99), self.rng.range(0, 99)
+            self.mark += 1
+            m = "@@%d:" % self.mark
+            self.add(Form("out", '%s << "%s" << (%s(%d + z0))(%d + z0) << newline;' % (self.d.out, m, nm, a, b), marker=m, value=m + str((b * k + a) % M)))
+        return self.forms[-1]
+
     def g_heavy(self):
         """allocation-heavy steps: a long list built by a comprehension, consumed by a later step
         (forced collections and `#int gc' fall between and inside them)"""
@@ -717,7 +739,7 @@ class Gen:
                                 ("macro", 4), ("ifblock", 5), ("include", 3 if len(self.files) < 3 else 0),
                                 ("out_split", 6), ("fun_split", 4), ("bump", 4), ("exprstep", 6), ("out_bump", 5 if self.bumps else 0),
                                 ("record", 5), ("array", 5), ("closure", 3), ("gener", 4), ("cond", 3),
-                                ("localmacro", 3), ("where", 3), ("macro2", 3), ("library", 2), ("heavy", 4)])
+                                ("localmacro", 3), ("where", 3), ("macro2", 3), ("library", 2), ("heavy", 4), ("curried", 5)])
                 getattr(self, "g_" + k)()
         # every session ends with an output so the last state is observed
         self.g_out()
